@@ -21,6 +21,10 @@ def member(n, kind, tag, seed, d=3):
         p["tamper"] = [{"how": "add", "f": "b", "v": d}]
     elif kind == "minus":
         p["tamper"] = [{"how": "add", "f": "b", "v": -d}]
+    elif kind in ("t1", "t3"):
+        p["tamper"] = [{"how": "add", "f": "b", "v": d}]
+    elif kind == "t2":
+        p["tamper"] = [{"how": "add", "f": "b", "v": -2 * d}]
     return p
 
 
@@ -32,7 +36,7 @@ def jobs_from(chk, pats, with_orders):
         pair_size = None
         members = []
         for j, (kd, sz) in enumerate(zip(pat["kinds"], pat["sizes"])):
-            if kd in ("plus", "minus"):
+            if kd in ("plus", "minus", "t1", "t2", "t3"):
                 # the same proof, its final scalar shifted by +d and by -d
                 pair_size = pair_size if pair_size is not None else sz
                 members.append(member(pair_size, kd, "b%d-m%d" % (i, j), base_seed + 1000))
@@ -72,7 +76,7 @@ def run(chk):
     q = chk.quick
     cfg = chk.path("batch.cfg")
     maxn = 3 if q else 4
-    open(cfg, "w").write("SPECIFICATION BSpec\nCONSTANTS\n  P = 7\n  MaxN = %d\n  SharedWeight = FALSE\nINVARIANT BInv\nINVARIANT Emit\nCHECK_DEADLOCK FALSE\n" % maxn)
+    open(cfg, "w").write("SPECIFICATION BSpec\nCONSTANTS\n  P = 7\n  MaxN = %d\n  SharedWeight = FALSE\n  AffineWeight = FALSE\nINVARIANT BInv\nINVARIANT Emit\nCHECK_DEADLOCK FALSE\n" % maxn)
     r = vlib.tlc_mc(chk, "MC_Batch.tla", cfg, workers=8, timeout=3000)
     pats = vlib.behaviours_from(r["out"])
     # non-vacuity of BatchCorrelated: the shared-weight design must violate it
@@ -82,6 +86,13 @@ def run(chk):
     if not (rm["error"] and "Invariant" in rm["error"]):
         raise vlib.ToolError("spec mutant 'one weight for all instances' does not violate BatchCorrelated: the model is vacuous")
     chk.cov["spec_mutant_shared_weight_rejected_by_model"] = True
+    # ... and the design with weights affine in the position (two draws for the whole batch) must violate BatchIff on the (+d, -2d, +d) triple
+    cfga = chk.path("batch_aff.cfg")
+    open(cfga, "w").write(open(cfg).read().replace("AffineWeight = FALSE", "AffineWeight = TRUE"))
+    ra = vlib.tlc("MC_Batch.tla", cfga, chk.path("mcba"), workers=4, timeout=900)
+    if not (ra["error"] and "Invariant" in ra["error"]):
+        raise vlib.ToolError("spec mutant 'weights affine in the position' does not violate BatchIff: the model is vacuous")
+    chk.cov["spec_mutant_affine_weight_rejected_by_model"] = True
     # the same law over the full verifier algebra: members are complete runs of System (prover, wire, adversary, verifier)
     vlib.batchsys_mc(chk)
     jobs = jobs_from(chk, pats, with_orders=True)
@@ -94,6 +105,9 @@ def run(chk):
         extra.append({"kinds": kinds, "sizes": [(3 * i + 1) % 6 for i in range(big)], "expect": "reject"})
     kinds = ["good"] * big
     kinds[1], kinds[big - 2] = "plus", "minus"
+    extra.append({"kinds": kinds, "sizes": [(3 * i + 1) % 6 for i in range(big)], "expect": "reject"})
+    kinds = ["good"] * big
+    kinds[1], kinds[2], kinds[3] = "t1", "t2", "t3"
     extra.append({"kinds": kinds, "sizes": [(3 * i + 1) % 6 for i in range(big)], "expect": "reject"})
     extra.append({"kinds": ["good"] * big, "sizes": [(3 * i + 1) % 6 for i in range(big)], "expect": "ok"})
     extra.append({"kinds": [], "sizes": [], "expect": "ok"})          # the empty batch: nothing to reject
